@@ -293,6 +293,7 @@ std::set<int> label_tags(const std::vector<WLabel>& ls, const char* kind, int& c
 /** compares the written file with the Document that was written; returns "" or the first discrepancy with its kind in `kind` */
 static std::string compare_written(UTAP::Document& doc, const WDoc& w, std::string& kind)
 {
+    TraversalScope traversal_scope;
     auto& templs = doc.get_templates();
     if (w.templs.size() != templs.size()) {
         kind = "template-count";
